@@ -1,6 +1,6 @@
 (* C07 — non-vacuity examples *)
 From Coq Require Import ZArith List Lia Permutation.
-From FV Require Import Lib.RustInt C05.Model C05.Proofs C05.Examples C07.Proofs.
+From FV Require Import Lib.RustInt C05.Model C05.Proofs C05.Examples C07.Proofs C07.Equiv.
 Import ListNotations.
 Open Scope Z_scope.
 
@@ -44,3 +44,11 @@ Example c07_id_streams_agree :
   same_bytes (dump_table ex_dag2 (id_stream 0 1 20))
              (dump_table ex_dag2 [3; 4; 1000; 1001; 70000; 70001; 70002; 70003]) = true.
 Proof. split; vm_compute; reflexivity. Qed.
+
+(* hypotheses of c07_counter_independent / c07_concurrent_history_independent are satisfiable *)
+Example c07_incr_nonvacuous :
+  incr [3; 4; 1000; 1001; 70000] /\ incr (id_stream 123456789 7 5) /\ length (id_stream 123456789 7 5) = 5%nat /\
+  incr_nat [2; 5; 6; 40]%nat /\
+  map (fun i => 1000 + Z.of_nat i) [2; 5; 6; 40]%nat = [1002; 1005; 1006; 1040] /\
+  (forall a b, a < b -> (fun x => 3 * x + 7) a < (fun x => 3 * x + 7) b).
+Proof. repeat split; cbn [incr incr_nat id_stream map seq]; try lia; try reflexivity; intros; lia. Qed.
